@@ -69,6 +69,17 @@ impl<ElemT> TokenRing<ElemT> {
     }
 }
 
+/// Verification hooks: thin pass-throughs to crate-private items, no logic.
+#[cfg(feature = "scylla-verif")]
+pub(crate) mod verif_hooks {
+    use super::TokenRing;
+    use crate::routing::Token;
+
+    pub(crate) fn ring_new<ElemT>(it: impl Iterator<Item = (Token, ElemT)>) -> TokenRing<ElemT> {
+        TokenRing::new(it)
+    }
+}
+
 #[cfg(test)]
 mod tests {
     use super::TokenRing;
